@@ -11,7 +11,7 @@ def write(pid, tier, seed, col, meta, wall, new=0, known=()):
         "evaluations": int(col.evaluations),
         "distinct_nontrivial": len(col.nontrivial),
         "rule": meta.get("rule", ""),
-        "samples": (col.samples or meta.get("samples") or [])[:6],
+        "samples": (col.samples or meta.get("samples") or [{"note": "no sample recorded by this run", "rule": meta.get("rule", "")[:200]}])[:6],
         "states": len(col.states),
         "transitions": len(col.transitions),
         "traces_validated_against_impl": int(col.evaluations),
